@@ -15,7 +15,7 @@ RULE = ("value contract on rfc6979.generate_k: == from-the-RFC reference (pinned
         "nonce, next candidate used when r=0/s=0 (toy curves). non-trivial key = (qlen mod 8, hash width vs qlen, digest vs qlen, "
         "extra-entropy class, retry count, rejected-candidate count class)")
 ASSUMPTIONS = ["hmac and hashlib are shared with the library (trusted)", "reference transcription vf/ref/rfc6979_ref.py self-tested on 7 published vectors incl. the 163-bit A.1 example"]
-REQUIRED = {"quick": ["k.small_order", "k.curve_value", "k.random_order", "k.rejected_ge1", "k.retry", "k.extra", "det.repeat", "det.value", "det.toy_retry"]}
+REQUIRED = {"quick": ["det.toy_retry_with_extra_entropy", "k.small_order", "k.curve_value", "k.random_order", "k.rejected_ge1", "k.retry", "k.extra", "det.repeat", "det.value", "det.toy_retry"]}
 EXHAUSTIVE = {"quick": ["every order n in [2,300]: all d for n<=40, boundary d beyond"], "thorough": ["every order n in [2,1024]"]}
 
 
@@ -185,12 +185,15 @@ def run(ctx, name, kind, **kw):
                 if not any(isinstance(ecdsa_ref.sign(dom, d, k, e), tuple) for k in range(1, n)):
                     ctx.count("toy.no_signature_exists_skipped")   # every nonce gives r=0 or s=0: nothing to compare (the library would not return)
                     continue
-                skipped = [0]
-                want = _ref_det(dom, d, hf, dg, e, b"", skipped)
-                cls = "det.toy_retry" if skipped[0] else "det.toy"
-                _det_call(ctx, cls, "%s|%d|skip%d" % (curve.name, d, min(skipped[0], 3)), curve, d, "sha256",
-                          lambda: sk.sign_digest_deterministic(dg, hashfunc=hf, sigencode=ecdsa.util.sigencode_strings, allow_truncate=True),
-                          "strings", n, want, None)
+                for extra in (b"", b"\x01", b"more entropy " * 3):
+                    skipped = [0]
+                    want = _ref_det(dom, d, hf, dg, e, extra, skipped)
+                    cls = "det.toy_retry" if skipped[0] else "det.toy"
+                    _det_call(ctx, cls, "%s|%d|skip%d|x%d" % (curve.name, d, min(skipped[0], 3), len(extra)), curve, d, "sha256",
+                              lambda: sk.sign_digest_deterministic(dg, hashfunc=hf, sigencode=ecdsa.util.sigencode_strings, extra_entropy=extra, allow_truncate=True),
+                              "strings", n, want, None)
+                    if skipped[0] and extra:
+                        ctx.case("det.toy_retry_with_extra_entropy", key="%s|%d" % (curve.name, min(skipped[0], 3)))
 
 
 def _ref_det(dom, d, hf, digest, e, extra, skipped=None):
